@@ -337,6 +337,44 @@ def has_shared_internable(heap):
   return False
 
 
+def canon_values(heap, root=1):
+  """Canonical form in which internable tuples (daglish.is_internable: all items leaves or such tuples) have
+  no identity: every occurrence is its own node.  Source text cannot express their sharing (constant
+  folding decides), and fiddle gives it no meaning."""
+  memo = {}
+
+  def internable(i):
+    if i not in memo:
+      o = heap[i - 1]
+      memo[i] = o['k'] == 'tuple' and all(
+          (not isinstance(it['val'], int)) or it['val'] >= 0 or internable(-it['val']) for it in o['items'])
+    return memo[i]
+
+  out, ids = [], {}
+
+  def visit(i):
+    if not internable(i) and i in ids:
+      return -ids[i]
+    idx = len(out) + 1
+    if not internable(i):
+      ids[i] = idx
+    o = heap[i - 1]
+    node = {'k': o['k'], 'fn': o['fn'], 'items': []}
+    out.append(node)
+    for it in o['items']:
+      v = it['val']
+      node['items'].append({'key': it['key'], 'val': visit(-v) if isinstance(v, int) and v < 0 else v,
+                            'tg': it.get('tg', 0)})
+    return -idx
+
+  try:
+    if heap:
+      visit(root)
+  except (IndexError, KeyError, TypeError):
+    return heap         # not a well-formed heap (e.g. a deliberately corrupted record): left as it is
+  return out
+
+
 def canon_sorted(heap, root=1):
   """Canonical form of an abstract heap modulo dict insertion order (dict items sorted by key id)."""
   out, ids = [], {}
